@@ -214,7 +214,8 @@ func (c *cluster) harvest() bool {
 			c.emitBL(call)
 			if !call.attached[f] {
 				call.attached[f] = true
-				c.emitAttach(call, f)
+				c.emitAttach(call, f, false)
+				c.mon.onAttachWithoutTruncate(call, f)
 			}
 			if c.findCursor(call.node, f) == nil {
 				c.cursors = append(c.cursors, &cursor{l: call.node, f: f, term: call.term, lInc: c.node(call.node).inc, ackOff: call.startAck[f], alive: true})
@@ -319,14 +320,20 @@ func (c *cluster) emitBL(call *asyncCall) {
 	c.mon.onBecomeLeaderStart(call)
 }
 
-func (c *cluster) emitAttach(call *asyncCall, f int) {
+// emitAttach reports addFollower on the leader: the follower's log as it reported it, and whether the leader sent a
+// Truncate RPC (the model's attach_decide is compared with that by the model driver).
+func (c *cluster) emitAttach(call *asyncCall, f int, truncated bool) {
 	r := call.resps[f]
 	var lg []entry
 	if r != nil {
 		lg = r.log
 	}
-	c.event("attach %d>%d (reported log %s)", call.node, f, logTok(lg))
-	c.tok(fmt.Sprintf("AT:%d:%d:%s", call.node, f, logTok(lg)))
+	did := "N"
+	if truncated {
+		did = "T"
+	}
+	c.event("attach %d>%d (reported log %s, truncate sent: %v)", call.node, f, logTok(lg), truncated)
+	c.tok(fmt.Sprintf("AT:%d:%d:%s:%s", call.node, f, logTok(lg), did))
 }
 
 func (c *cluster) harvestElect(g *gate) {
@@ -1181,10 +1188,13 @@ func (c *cluster) stepTruncate(l, f int, fail bool) bool {
 	c.event("truncate %d>%d to (%d,%d): head now %d, log=%s", l, f, req.HeadEntryId.Term, req.HeadEntryId.Offset, res.HeadEntryId.Offset, logTok(c.shadowLog(f)))
 	if call != nil {
 		c.emitBL(call)
+		// (a leader whose own prefix is a snapshot decides on its WAL only: known finding, reported before the Attach
+		// so that the model, whose leader consults its whole log, is not asked about it)
+		c.mon.onTruncateDecision(call, l, f, req)
 		if !call.attached[f] {
 			call.attached[f] = true
 			call.startAck[f] = res.HeadEntryId.Offset
-			c.emitAttach(call, f)
+			c.emitAttach(call, f, true)
 		}
 	}
 	c.mon.onTruncate(call, l, f, req, res)
